@@ -9,7 +9,16 @@ CONSTANT FAMILY
 EmptyEnumProg == Program(<<Enum("Never", Mod, <<>>, <<>>), Struct("HasNever", Mod, <<>>, <<SField("e", P_Opt(A0("Never"))), SField("n", u8)>>),
                            Struct("DeepNever", Mod, <<>>, <<SField("v", P_Vec(P_Tup(<<u8, A0("HasNever")>>)))>>),
                            Struct("Big", Mod, <<>>, <<SField("a", P_Prim("u256")), SField("b", P_Prim("i256")), SField("c", P_Arr(u8, 0)), SField("d", P_Arr(A0("Never"), 0))>>)>>, <<>>)
-Extra == {[fam |-> "G12", prog |-> EmptyEnumProg, roots |-> <<A0("DeepNever"), A0("Big")>>]}
+\* a recursive enum that can finish (Leaf) and is met several times under one root; a recursive enum under sequences and arrays
+ForestProg == Program(<<Enum("Tree", Mod, <<>>, <<Variant("Leaf", 0, <<>>), Variant("Node", 1, <<SField("", P_Box(A0("Tree"))), SField("", P_Box(A0("Tree"))), SField("", P_Box(A0("Tree"))),
+                                                                                             SField("", P_Box(A0("Tree"))), SField("", P_Box(A0("Tree"))), SField("", P_Box(A0("Tree")))>>)>>),
+                        Struct("Forest", Mod, <<>>, <<SField("a", A0("Tree")), SField("b", A0("Tree")), SField("c", A0("Tree")), SField("d", A0("Tree")), SField("e", P_Vec(A0("Tree"))),
+                                                      SField("f", P_Arr(A0("Tree"), 3)), SField("g", P_Opt(A0("Tree")))>>),
+                        Struct("Nest", Mod, <<>>, <<SField("a", P_Vec(P_Compact(u16))), SField("b", P_Opt(P_Compact(u64))), SField("c", P_Tup(<<P_Compact(u8), P_Adt("NonCompact", <<u8>>)>>)),
+                                                    SField("d", P_Adt("NonCompact", <<bool>>)), SField("e", P_Compact(u32)), CField("f", u32)>>),
+                        Struct("NonCompact", Mod, <<Param("T")>>, <<SField("", T)>>)>>, <<>>)
+Extra == {[fam |-> "G12", prog |-> EmptyEnumProg, roots |-> <<A0("DeepNever"), A0("Big")>>],
+          [fam |-> "G12", prog |-> ForestProg, roots |-> <<A0("Forest"), A0("Nest")>>]}
 Cases == CASE FAMILY = "G1a_1" -> G1a_1(0) [] FAMILY = "G1c" -> G1c(0) \cup Extra [] FAMILY = "G8" -> G8(0) \cup G8b(0)
 
 VARIABLES c, id
